@@ -31,6 +31,10 @@ UNIT = dict(
         dict(id="signal_gate", kind="block", src=C, within="make_config", stmts_from="let signals: Vec<Signal> = action.signals().collect();",
              stmts_to="for signal in signals", free=["action", "signal_map", "show_events", "quit"], extra_bound=["action"],
              rules=dict(pre_subst=[("action.signals().collect()", "action.vx_signals()"), ("show_events();", ""), ("return quit(action);", "return vx_quit(action);")])),
+        dict(id="event_gate", kind="block", src=C, within="make_config", stmts_from="if action.paths().next().is_none()", stmts_to="if let Some(delay) = delay_run",
+             free=["action", "show_events"], extra_bound=["action"],
+             rules=dict(pre_subst=[("action.paths().next().is_none()", "action.vx_no_paths()"), ("action.events.iter().any(watchexec_events::Event::is_empty)", "action.vx_any_empty()"),
+                                   ("show_events();", ""), ("return action;", "return vx_skip(action);")])),
         dict(id="queue_task", kind="block", src=C, within="make_config", after=["tokio::spawn(", "async move"],
              free=["job", "queued", "innerjob", "clear_screen", "outflags"], rules=dict(pre_subst=[(SETUP, "VxSetup")])),
         dict(id="on_busy", kind="block", src=C, within="make_config", after="let is_running = matches!(context.current, CommandState::Running { .. }); Box::new(async move",
